@@ -473,6 +473,17 @@ func (g *gen17) mutate17(t *T17) *T17 {
 	}
 	walk(n)
 	x := nodes[g.r.intn(len(nodes))]
+	if g.r.chance(0.3) {
+		var funs []*T17
+		for _, nd := range nodes {
+			if nd.K == "fun" || nd.K == "obj" {
+				funs = append(funs, nd)
+			}
+		}
+		if len(funs) > 0 {
+			x = funs[g.r.intn(len(funs))]
+		}
+	}
 	switch g.r.intn(5) {
 	case 0:
 		if x.K != "tuple" {
@@ -487,7 +498,18 @@ func (g *gen17) mutate17(t *T17) *T17 {
 			x.A, x.F = x.A[1:], x.F[1:]
 		}
 	case 3:
-		if (x.K == "fun" || x.K == "tuple") && len(x.A) > 1 {
+		switch {
+		case x.K == "fun" && len(x.A) > 1 && g.r.chance(0.6):
+			// arity change that keeps a common prefix: drop or add the LAST parameter
+			ret := x.A[len(x.A)-1]
+			if g.r.chance(0.5) {
+				x.A = append(x.A[:len(x.A)-2:len(x.A)-2], ret)
+			} else {
+				x.A = append(x.A[:len(x.A)-1:len(x.A)-1], g.ty(1, false, false), ret)
+			}
+		case x.K == "tuple" && len(x.A) > 1 && g.r.chance(0.5):
+			x.A = x.A[:len(x.A)-1]
+		case (x.K == "fun" || x.K == "tuple") && len(x.A) > 1:
 			x.A = x.A[1:]
 		}
 	default:
